@@ -11,18 +11,20 @@ def optStr : Option String → String
 
 mutual
 /-- `_visit(hog, parent)`; `pOg` = the XML parent is an orthologGroup.
-    Returns the elements contributed to the parent. -/
-def exportVisit (nameOf : Taxon → String) (pOg : Bool) : Node → List Elem
+    `keep` = that orthologGroup was written around a single child.  Returns the elements contributed to the parent. -/
+def exportVisit (nameOf : Taxon → String) (pOg : Bool) (keep : Bool) : Node → List Elem
   | .gene i _ _ _ => [.ref i none]
   | .hog info t _ kids dups =>
     let dupMembers := dups.flatMap (·.members)
     let remaining := kids.filter fun k => !dupMembers.contains k.key
     let elide :=
-      if kids.length == 1 then pOg
-      else if dups.length ≥ 1 then remaining.isEmpty && dups.length == 1 && pOg
+      if kids.length == 1 then pOg && !keep
+      else if dups.length ≥ 1 then remaining.isEmpty && dups.length == 1 && pOg && !keep
       else false
+    -- the level of a group written around a single child is "one above that child": keep the child
+    let keepChild := kids.length == 1 && !elide
     -- one <paralogGroup> per duplication, then the remaining children
-    let body := (dups.map fun d => Elem.pg none (exportMembers nameOf d.members kids)) ++ exportKids nameOf true remaining kids
+    let body := (dups.map fun d => Elem.pg none (exportMembers nameOf d.members kids)) ++ exportKids nameOf true keepChild remaining kids
     if elide then body
     else [.og (some (optStr info.hid)) none (.prop "TaxRange" (nameOf t) :: body)]
 /-- children that are members of one duplication, in member order; parent tag = paralogGroup -/
@@ -30,11 +32,11 @@ def exportMembers (nameOf : Taxon → String) (mem : List Key) : List Node → L
   | [] => []
   | k :: ks =>
     -- emit `k` at the position(s) it has in `mem`; order inside a paralogGroup is irrelevant
-    (if mem.contains k.key then exportVisit nameOf false k else []) ++ exportMembers nameOf mem ks
-def exportKids (nameOf : Taxon → String) (pOg : Bool) (sel : List Node) : List Node → List Elem
+    (if mem.contains k.key then exportVisit nameOf false false k else []) ++ exportMembers nameOf mem ks
+def exportKids (nameOf : Taxon → String) (pOg : Bool) (keep : Bool) (sel : List Node) : List Node → List Elem
   | [] => []
   | k :: ks =>
-    (if sel.any (·.key == k.key) then exportVisit nameOf pOg k else []) ++ exportKids nameOf pOg sel ks
+    (if sel.any (·.key == k.key) then exportVisit nameOf pOg keep k else []) ++ exportKids nameOf pOg keep sel ks
 end
 
 /-- `_add_species_data` + `_add_groups` -/
@@ -45,6 +47,6 @@ def ihamExport (H : Ham) (n : Node) : Input :=
        genes := e.2.map fun g =>
          let protId := ((H.genes.find? (·.id == g)).bind fun r => r.xrefs.lookup "protId")
          { id := g, xrefs := [("protId", optStr protId)] } } : Species)
-  { species := species.reverse, groups := exportVisit nameOf false n }
+  { species := species.reverse, groups := exportVisit nameOf false false n }
 
 end Pyham
